@@ -58,6 +58,7 @@ def register(E):
         if isinstance(x, (Agg, Enum)) and x.ty and x.ty.endswith('Either') and len(x.f) == 1: return as_iter(e, x.f[0])
         if isinstance(x, SliceRef): return It('slice', l=x.l, pos=x.lo, end=x.hi)
         if isinstance(x, Vec): return It('list', l=list(x.l), pos=0)
+        if isinstance(x, Agg) and x.ty and 'RangeFrom' in x.ty: return It('range', pos=x.f[0], end=float('inf'))
         if isinstance(x, Agg) and x.ty and 'Range' in x.ty: return It('range', pos=x.f[0], end=x.f[1])
         if isinstance(x, Agg) and x.ty == 'arr': return It('list', l=list(x.f), pos=0)
         if isinstance(x, Agg) and x.ty and e._find_impl('next', 'Iterator', x.ty, 1) is not None: return It('crate', obj=[x])
@@ -70,7 +71,7 @@ def register(E):
                     cands.sort(key=lambda f: not strip_lifetimes(f.args[0]).startswith('&mut '))
                     return as_iter(e, e.call_mir(cands[0], [x]))
             if isinstance(v, Vec) and v.ty == 'HashSet':
-                perms = list(itertools.permutations(range(len(v.l)))); p = perms[e.choose(len(perms))]
+                p = e.pick_order(len(v.l))
                 return It('list', l=[Ref(v.l, i) for i in p], pos=0)
             return as_iter(e, as_slice(v))
         raise EngineError(f'as_iter {x!r}')
@@ -179,6 +180,7 @@ def register(E):
             elif 'RangeFull' not in c: lo, hi = r.f[0], r.f[1]
             if not (isinstance(lo, int) and isinstance(hi, int)): raise EngineError('symbolic str slice bounds')
             if lo > hi or hi > len(b): raise Panic('str slice index out of range')
+            if isinstance(v0, Str) or v0.ty == 'String': e.check_boundary(b, lo); e.check_boundary(b, hi)
             return Ref([Str(b[lo:hi])], 0)
         v = as_slice(v0)
         lo, hi = 0, len(v)
@@ -202,7 +204,7 @@ def register(E):
         if c.endswith('into_future'): return x
         if isinstance(x, It): return x
         if isinstance(x, HashMapM):
-            perms = list(itertools.permutations(x.items)); p = perms[e.choose(len(perms))]
+            p = [x.items[i] for i in e.pick_order(len(x.items))]
             return It('list', l=[Agg([k, v], 'tup') for k, v in p], pos=0)
         return as_iter(e, x)
     @R(r'^std::future::get_context')
@@ -421,7 +423,7 @@ def register(E):
     def _(e, c, a): return Vec([], 'HashSet')
     @R(r'^(std::collections::)?HashSet::<.*>::iter$')
     def _(e, c, a):
-        l = deref(a[0]).l; perms = list(itertools.permutations(range(len(l)))); p = perms[e.choose(len(perms))]
+        l = deref(a[0]).l; p = e.pick_order(len(l))
         return It('list', l=[Ref(l, i) for i in p], pos=0)
     @R(r'^(std::collections::)?HashSet::<.*>::is_empty$')
     def _(e, c, a): return len(deref(a[0]).l) == 0
